@@ -71,23 +71,27 @@ func (w *MarkdownWriter) Write() ([]byte, error) {
 		w.writeMetadata()
 	}
 
-	// 遍历文档段落
+	// 按正文顺序遍历段落和表格
 	if w.doc.Body != nil {
-		for _, para := range w.doc.Body.GetParagraphs() {
-			err := w.writeParagraph(para)
-			if err != nil {
-				if w.opts.ErrorCallback != nil {
-					w.opts.ErrorCallback(err)
+		inList := false
+		for _, element := range w.doc.Body.Elements {
+			var err error
+			switch el := element.(type) {
+			case *document.Paragraph:
+				isItem := el != nil && w.isListParagraph(el) && !w.isSpecialStyle(el)
+				if inList && !isItem {
+					// 列表结束后需要空行，否则后面的内容会被当作列表项的延续
+					w.output.WriteString("\n")
 				}
-				if !w.opts.IgnoreErrors {
-					return nil, err
+				inList = isItem
+				err = w.writeParagraph(el)
+			case *document.Table:
+				if inList {
+					w.output.WriteString("\n")
+					inList = false
 				}
+				err = w.writeTable(el)
 			}
-		}
-
-		// 处理表格
-		for _, table := range w.doc.Body.GetTables() {
-			err := w.writeTable(table)
 			if err != nil {
 				if w.opts.ErrorCallback != nil {
 					w.opts.ErrorCallback(err)
@@ -389,6 +393,12 @@ func (w *MarkdownWriter) getParagraphStyle(para *document.Paragraph) string {
 		return para.Properties.ParagraphStyle.Val
 	}
 	return "Normal"
+}
+
+// isSpecialStyle 判断段落是否按标题/引用/代码块输出（这些样式优先于列表）
+func (w *MarkdownWriter) isSpecialStyle(para *document.Paragraph) bool {
+	style := w.getParagraphStyle(para)
+	return strings.HasPrefix(style, "Heading") || style == "Quote" || style == "CodeBlock"
 }
 
 // getHeadingLevel 获取标题级别
